@@ -31,12 +31,17 @@ type AD struct {
 	Data []byte
 }
 
-// Name splits "a/b" into components; "" is a name with zero components.
+// Name splits "a/b" into components; "" is a name with zero components. A literal slash inside a
+// component is written %2F ("a%2Fb" is the single component "a/b").
 func Name(s string) []string {
 	if s == "" {
 		return []string{}
 	}
-	return strings.Split(s, "/")
+	parts := strings.Split(s, "/")
+	for i := range parts {
+		parts[i] = strings.ReplaceAll(parts[i], "%2F", "/")
+	}
+	return parts
 }
 
 // PN builds a PrincipalName value.
@@ -105,6 +110,7 @@ type TicketSpec struct {
 
 	MutateCipher func([]byte) []byte // optional ciphertext tamper
 	RawEncPart   []byte              // if set, used as the enc-part plaintext instead of the encoded EncTicketPart
+	Trailing     []byte              // raw DER appended inside the Ticket SEQUENCE after enc-part [3] (unauthenticated wire data)
 }
 
 // EncPart is the EncTicketPart value.
@@ -151,7 +157,26 @@ func (t *TicketSpec) Value() der.M {
 }
 
 // Bytes is the DER Ticket.
-func (t *TicketSpec) Bytes() []byte { return der.Ticket.MustEncode(t.Value()) }
+func (t *TicketSpec) Bytes() []byte {
+	return AppendInsideApp(der.Ticket.MustEncode(t.Value()), t.Trailing)
+}
+
+// AppendInsideApp appends raw DER inside the SEQUENCE of an [APPLICATION n] SEQUENCE { ... } encoding.
+func AppendInsideApp(msg, extra []byte) []byte {
+	if len(extra) == 0 {
+		return msg
+	}
+	n, err := der.Parse(msg)
+	if err != nil {
+		panic("mint: " + err.Error())
+	}
+	seq, err := n.Explicit()
+	if err != nil {
+		panic("mint: " + err.Error())
+	}
+	inner := der.TLV(der.Universal, der.TagSequence, true, append(append([]byte{}, seq.Content...), extra...))
+	return der.TLV(n.Class, n.Tag, true, inner)
+}
 
 // AuthSpec describes an authenticator.
 type AuthSpec struct {
@@ -211,8 +236,13 @@ func (a *AuthSpec) Enc() der.M {
 
 // APReq renders an AP-REQ.
 func APReq(t *TicketSpec, a *AuthSpec, apOptions uint32) []byte {
-	return der.APReq.MustEncode(der.M{"pvno": int64(5), "msg-type": int64(14), "ap-options": Flags32(apOptions),
-		"ticket": t.Value(), "authenticator": a.Enc()})
+	v := der.M{"pvno": int64(5), "msg-type": int64(14), "ap-options": Flags32(apOptions), "authenticator": a.Enc()}
+	if len(t.Trailing) > 0 {
+		v["ticket"] = der.Raw(t.Bytes())
+	} else {
+		v["ticket"] = t.Value()
+	}
+	return der.APReq.MustEncode(v)
 }
 
 // ---------------------------------------------------------------------------------------------
